@@ -686,6 +686,29 @@ def check_writer(ctx, rep):
         probs.append("a new label is not len(table) + 1")
     rep.ob("W3", not probs, W.node, W, construct="ring label allocation", how="single table keyed by (min(src,dst), max(src,dst)); new label = len(table)+1",
            witness="; ".join(probs) or None, nontrivial=True, key="labels/" + ("ok" if not probs else "+".join(sorted(p[:30] for p in probs))))
+    # the label table is one object per mol_to_smiles call, shared by all fragments
+    recvs = {c.func.value.id for c in ast.walk(W.node) if isinstance(c, ast.Call) and isinstance(c.func, ast.Attribute)
+             and c.func.attr == "setdefault" and isinstance(c.func.value, ast.Name)}
+    pt = ctx.pt
+    for nm in sorted(recvs):
+        objs = [i for i in pt.v(W.qual, nm) if isinstance(i, tuple) and i[0] == "alloc"]
+        ok = len(objs) == 1
+        why = None
+        if not ok:
+            why = "ring-label table has %d allocation sites" % len(objs)
+        else:
+            scope, node = pt.objs[objs[0]].site
+            g = ctx.db.funcs.get(scope)
+            if g is None:
+                ok, why = False, "ring-label table is module state"
+            else:
+                for n2 in own_nodes(g.node):
+                    if isinstance(n2, (ast.For, ast.While)) and any(x is node for x in ast.walk(n2)):
+                        ok, why = False, ("ring-label table is re-created inside a loop of %s (per fragment): a ring bond between "
+                                          "fragments gets two different labels, and labels repeat" % g.name)
+        rep.ob("W3", ok, pt.objs[objs[0]].site[1] if objs else W.node, ctx.db.funcs.get(objs[0][1]) if objs else W,
+               construct="ring-label table %s" % nm, how="one table per output, allocated outside the fragment loop",
+               witness=why, nontrivial=True, key="label-table/" + ("ok" if ok else "not-shared"))
     # ring bonds stored in both adjacency lists
     arb = ctx.fn("selfies.mol_graph.MolecularGraph.add_ring_bond")
     loc_calls = [s for s in ctx.cg.sites(arb) if any(g.name == "_add_bond_at_loc" for g in s.callees)]
